@@ -106,6 +106,11 @@ CursorOk(e) ==
     /\ e.obs2 = want2
     /\ \A i \in DOMAIN e.gets : e.gets[i][2] = GetOf(e.kv, e.pending, e.gets[i][1])
 
+(* C20: a handle closed while it is in use.  What CloverClose proves of the protocol between Begin and Close (design *)
+(* "count") is what a trial must show: every call returned (EveryCallReturns), no call used a closed store (a    *)
+(* panic: NoUseAfterClose), and no call succeeded once Close had returned (ClosedMeansRefused).                  *)
+CloseRaceOk(e) == e.blocked = 0 /\ e.panics = 0 /\ e.okafterclose = 0
+
 (* C02: the range the planner derives for the selected index field contains the field value of  *)
 (* every satisfying document (so an index range scan followed by the filter loses nothing), and  *)
 (* a range reported empty admits no satisfying document.                                         *)
@@ -170,6 +175,7 @@ LineOk(e) ==
       [] e.kind = "normdoc"   -> NormDocOk(e)
       [] e.kind = "docpath"   -> DocPathOk(e)
       [] e.kind = "cursor"    -> CursorOk(e)
+      [] e.kind = "closerace" -> CloseRaceOk(e)
       [] e.kind = "plan"      -> PlanOk(e)
       [] e.kind = "keys"      -> KeysOk(e)
       [] e.kind = "Reset"     -> TRUE
@@ -181,6 +187,7 @@ InvAuxNoPanic ==
     HaveLast =>
        CASE Last.kind = "satisfy" -> Last.obs # "panic"
          [] Last.kind \in {"scan", "cursor", "plan"} -> Last.panicked = 0
+         [] Last.kind = "closerace" -> CloseRaceOk(Last)
          [] Last.kind \in {"norm", "normdoc"} -> Last.obs # <<"panic">>
          [] OTHER -> TRUE
 
